@@ -246,7 +246,7 @@ func Run(r *fw.Run) {
 		names, orders := baseOrders(n)
 		b := c.Choose(len(orders), "base order")
 		j := c.Choose(n, "position")
-		bad := fw.Pick(c, []int{-1, 1001, -1000, 100000}, "bad priority")
+		bad := fw.Pick(c, []int{-1, 1001, -1000, 100000, 1<<32 + 5, 1<<32 + 10 + orders[b][j], -(1 << 32) + 7, 1 << 31}, "bad priority (the last four do not fit an int32; two of them wrap to a valid priority, one to a priority another policy has)")
 		infos, after, sn := surroundings(c)
 		if sn != surroundNames[0] && (n > 5 || b > 1) {
 			c.Skip()
@@ -264,7 +264,11 @@ func Run(r *fw.Run) {
 			infos = append(infos, wm.InfoANP(a))
 		}
 		infos = append(infos, after...)
-		return Case{Infos: infos, Expect: []string{fmt.Sprintf("pol-%02d", j), fmt.Sprint(bad), "Priority"}, Desc: fmt.Sprintf("priority-range n=%d base=%s position=%d value=%d surroundings=%s ruleless=%v", n, names[b], j, bad, sn, ruleless)}
+		expect := []string{fmt.Sprintf("pol-%02d", j), fmt.Sprint(bad), "Priority"}
+		if int(int32(bad)) != bad {
+			expect = []string{fmt.Sprintf("pol-%02d", j), "Priority"} // the policy and the kind of conflict are named; the number cannot be represented
+		}
+		return Case{Infos: infos, Expect: expect, Desc: fmt.Sprintf("priority-range n=%d base=%s position=%d value=%d surroundings=%s ruleless=%v", n, names[b], j, bad, sn, ruleless)}
 	}, eval)
 
 	// (iv) duplicates among 0..12 other documents at every pair of positions
